@@ -261,6 +261,70 @@ def cmdSweep (t : List String) : String :=
         | none => "bad-op"
   | _ => "bad-op"
 
+/-! ### register sweeps: one instruction for every value of one 16-bit register, chained memory -/
+
+def setWhich (r : Regs) (which : Nat) (v : UInt16) : Regs :=
+  match which with
+  | 0 => r.setBC v | 1 => r.setDE v | 2 => r.setHL v | 3 => r.setIX v | 4 => r.setIY v
+  | 5 => { r with sp := v } | 6 => { r with pc := v } | _ => r.setAF v
+
+def b2u (b : Bool) : UInt64 := if b then 1 else 0
+
+/-- For each value `v` of the block: registers, alternate registers and control state as installed, register
+    `which` := v, the four code bytes at the installed PC restored (raw, unless PC itself is swept), one step.
+    Memory is carried from one iteration to the next.  Hashes: registers without F/PC/R (+ final memory),
+    F under 0xD7, PC+SP, T-states, Zilog T-states where documented, control state. -/
+def sweepReg (c0 : Cpu) (which blk nblk : Nat) : String := Id.run do
+  let per := 65536 / nblk
+  let a0 := c0.arch
+  let pc0 := a0.reg.pc
+  let c0b := a0.bus.readByte pc0
+  let c1b := a0.bus.readByte (pc0 + 1)
+  let c2b := a0.bus.readByte (pc0 + 2)
+  let c3b := a0.bus.readByte (pc0 + 3)
+  let mut bus := a0.bus
+  let mut h1 : UInt64 := 0xcbf29ce484222325
+  let mut hf : UInt64 := 0xcbf29ce484222325
+  let mut h3 : UInt64 := 0xcbf29ce484222325
+  let mut h4 : UInt64 := 0xcbf29ce484222325
+  let mut hz : UInt64 := 0xcbf29ce484222325
+  let mut h5 : UInt64 := 0xcbf29ce484222325
+  let mut alldoc := true
+  for k in [0:per] do
+    let v := UInt16.ofNat (blk * per + k)
+    let bus1 : Bus :=
+      if which == 6 then bus
+      else { bus with mem := (((bus.mem.setIfInBounds pc0.toNat c0b).setIfInBounds (pc0 + 1).toNat c1b).setIfInBounds
+                                (pc0 + 2).toNat c2b).setIfInBounds (pc0 + 3).toNat c3b }
+    let a : Arch := { a0 with reg := setWhich a0.reg which v, bus := bus1 }
+    let (a', cyc, info) := stepArch a
+    let r := a'.reg
+    let t := a'.alt
+    h1 := mix (mix (mix (mix (mix (mix (mix h1 r.a.toUInt64) r.b.toUInt64) r.c.toUInt64) r.d.toUInt64) r.e.toUInt64) r.h.toUInt64) r.l.toUInt64
+    h1 := mix (mix (mix (mix (mix (mix h1 r.ixh.toUInt64) r.ixl.toUInt64) r.iyh.toUInt64) r.iyl.toUInt64) r.i.toUInt64) r.sp.toUInt64
+    h1 := mix (mix (mix (mix (mix (mix (mix (mix h1 t.a.toUInt64) t.flags.toByte.toUInt64) t.b.toUInt64) t.c.toUInt64) t.d.toUInt64) t.e.toUInt64) t.h.toUInt64) t.l.toUInt64
+    hf := mix hf (r.flags.toByte &&& 0xD7).toUInt64
+    h3 := mix (mix h3 r.pc.toUInt64) r.sp.toUInt64
+    h4 := mix h4 cyc.toUInt64
+    let z : UInt64 :=
+      match info with
+      | none => 4
+      | some i =>
+        let doc := !a.wakes && Spec.documented i.page i.d.op && !Spec.io i.page i.d.op && !Spec.isBlockRepeat i.d.instr
+        match doc, Spec.timing i.page i.d.instr i.tk with
+        | true, some n => UInt64.ofNat n
+        | _, _ => cyc.toUInt64
+    alldoc := alldoc && (match info with
+      | none => true
+      | some i => !a.wakes && Spec.documented i.page i.d.op && !Spec.io i.page i.d.op && !Spec.isBlockRepeat i.d.instr)
+    hz := mix hz z
+    h5 := mix (mix (mix (mix (mix (mix h5 (b2u a'.halt)) (b2u a'.iff1)) (b2u a'.iff2)) a'.im.toUInt64)
+            (match a'.int with | none => 0x100 | some b => b.toUInt64)) (b2u a'.nmi)
+    bus := a'.bus
+  let ck := bus.mem.foldl (fun h b => mix h b.toUInt64) (0xcbf29ce484222325 : UInt64)
+  return "H " ++ hexN 16 (mix h1 ck).toNat ++ " " ++ hexN 16 hf.toNat ++ " " ++ hexN 16 h3.toNat ++ " " ++
+    hexN 16 h4.toNat ++ " " ++ hexN 16 hz.toNat ++ " " ++ hexN 16 h5.toNat ++ " doc=" ++ (if alldoc then "1" else "0")
+
 /-! ### request dispatcher -/
 
 def h16 (s : String) : Option UInt16 := (parseHex s).map UInt16.ofNat
@@ -348,6 +412,9 @@ def handle (st : DState) (line : String) : DState × String :=
     | some a => let (txt, sz) := dasm st.cpu.arch a; (st, "A " ++ toString sz.toNat ++ " " ++ txt)
     | none => bad
   | "SW" :: rest => (st, cmdSweep rest)
+  | ["SWR", w, b, n] => match parseHex w, parseHex b, parseHex n with
+    | some w, some b, some n => if n == 0 || 65536 % n != 0 || b ≥ n then bad else (st, sweepReg st.cpu w b n)
+    | _, _, _ => bad
   | ["SF", n8] => match parseHex n8 with
     | some n => let c := st.cpu.setFreqEighths (UInt32.ofNat n); ({ st with cpu := c }, "V " ++ toString c.slice.max.toNat)
     | none => bad
